@@ -345,6 +345,9 @@ func drawV(t *rapid.T, p *Profile, label string, depth int) V {
 		}
 		return V{K: List, Items: items}
 	case Map:
+		if p.JSONSafe && rapid.IntRange(0, 9).Draw(t, label+".near") == 0 {
+			return drawNearReserved(t, p, label, depth)
+		}
 		n := drawWidth(t, p, label+".n", depth)
 		keys := DrawKeys(t, label, n, p)
 		ents := make([]Ent, len(keys))
@@ -354,6 +357,49 @@ func drawV(t *rapid.T, p *Profile, label string, depth int) V {
 		return V{K: Map, Ents: ents}
 	}
 	return MkNull()
+}
+
+// drawNearReserved draws a map that resembles, but is not, one of the shapes DAG-JSON reserves for
+// links and bytes: a "/" entry holding a string (CID-like or not) or a {"bytes": …} map, with further
+// entries beside or inside it, or with a value of another kind. (An exact reserved shape that comes out
+// is repaired by FixReserved like any other.)
+func drawNearReserved(t *rapid.T, p *Profile, label string, depth int) V {
+	str := func() V {
+		if rapid.Bool().Draw(t, label+".cidlike") {
+			return MkString(rapid.SampledFrom([]string{"bafyreigdmqpykrgxyaxtlafqpqhzrb7qy2rh75nldvfd4tucqmqqme5yje", "QmXNh4MHXRFhmv4W3LkdFHK2JgaV5qBqfXkxwUD5oApqCT", "bafkqaaa", "AQID", "aGVsbG8", ""}).Draw(t, label+".cidstr"))
+		}
+		return MkString(DrawText(t, label+".s", true, 5))
+	}
+	var slash V
+	switch rapid.IntRange(0, 5).Draw(t, label+".slashval") {
+	case 0:
+		slash = str()
+	case 1:
+		slash = MkMap(Ent{"bytes", str()})
+	case 2: // a second entry inside the inner map, before or after "bytes"
+		k := rapid.SampledFrom([]string{"a", "bytez", "c", "byte", "\u0000", "bytes0"}).Draw(t, label+".ink")
+		slash = MkMap(Ent{"bytes", str()}, Ent{k, drawV(t, p, label+".inv", depth+2)})
+	case 3:
+		slash = MkMap(Ent{"bytes", drawV(t, p, label+".nonstr", depth+2)})
+	case 4:
+		slash = MkMap(Ent{"/", str()})
+	default:
+		slash = drawV(t, p, label+".other", depth+1)
+	}
+	ents := []Ent{{"/", slash}}
+	// further entries: keys sorting after "/" (most) or before it
+	n := rapid.IntRange(0, 2).Draw(t, label+".more")
+	for i := 0; i < n; i++ {
+		k := rapid.SampledFrom([]string{"zzz", "a", "0", "bytes", "//", "/a", " ", "!", "\t", "-", "."}).Draw(t, label+".morek")
+		dup := false
+		for _, e := range ents {
+			dup = dup || e.K == k
+		}
+		if !dup {
+			ents = append(ents, Ent{k, drawV(t, p, label+".morev", depth+1)})
+		}
+	}
+	return V{K: Map, Ents: ents}
 }
 
 func drawWidth(t *rapid.T, p *Profile, label string, depth int) int {
